@@ -168,7 +168,19 @@ def main(a):
         ids = [i for i in ids if os.path.isdir(os.path.join(base, i))]
         bad = 0
         with cf.ThreadPoolExecutor(max_workers=int(os.environ.get('SEEDED_JOBS', '3'))) as ex:
-            for r in ex.map(lambda i: detect_one(i, ALL, 'seeded_harmless'), ids):
+            # SEEDED_PROPS=C05,C14 restricts the run to those checks and MERGES into the stored result (used after a change
+            # that can only affect some checks); the default is every claimed property
+            sel = [p for p in os.environ.get('SEEDED_PROPS', '').split(',') if p] or ALL
+            def one(i):
+                r = detect_one(i, sel, 'seeded_harmless')
+                if sel != ALL:
+                    try:
+                        prev = json.load(open(os.path.join(base, i, 'result.json')))
+                        merged = dict(prev.get('checks', {})); merged.update(r.get('checks', {})); r['checks'] = merged
+                    except Exception:
+                        pass
+                return r
+            for r in ex.map(one, ids):
                 codes = {p: v['exit'] for p, v in r.get('checks', {}).items()}
                 r['false_alarm'] = [p for p, c in codes.items() if c == 1]
                 r['undecided'] = [p for p, c in codes.items() if c == 2]
